@@ -30,7 +30,7 @@ var setLhs = map[string][]lhsCand{
 	Others: {{"tags", TStr, true}, {"things", TStr, true}, {"things.flt", TFloat, true}, {"things.owner.name", TStr, true}, {"things.owner.age", TInt, true}, {"things.nums", TStr, true}, {"things.friends.rank", TInt, true}},
 }
 
-var subSets = map[string][]string{Things: {"friends"}, Owners: {"things"}, Others: {"things"}}
+var subSets = map[string][]string{Things: {"friends"}, Owners: {"things", "favlist"}, Others: {"things"}}
 
 type Gen struct {
 	R     *core.Rand
